@@ -65,11 +65,35 @@ def gen_case_rng(rng, mode):
                 # a content change that keeps the file's mtime: only a
                 # forced load is obliged to notice it
                 op['op'] = 'write_keep'
+                ops.append(op)
+                if rng.random() < 0.7:
+                    # ... and the forced load that has to notice it
+                    ops.append({'op': 'force', 'e': e})
+                    ops.append({'op': 'check', 'e': e})
+                continue
             ops.append(op)
         elif k == 'enforce':
             ops.append({'op': 'enforce', 'e': e, 'i': rng.randrange(1 << 16)})
         else:
             ops.append({'op': k, 'e': e})
+    if mode == 'plain' and rng.random() < 0.12:
+        # directed prefix: a dirs-only enforcer (no main policy file) whose
+        # directory file changes content but not mtime, then a forced load
+        e = rng.randrange(n)
+        w = worlds[e]
+        cands = sorted(p for p, f in w['files'].items()
+                       if not p.startswith('etc/') or p.count('/') > 1)
+        cands = [p for p in cands if '/.' not in p and W.SUBDIR not in p
+                 and not w['files'][p].get('symlink')]
+        if cands:
+            for mname in W.MAIN_CANDIDATES:
+                w['files'].pop('etc/' + mname, None)
+            p = rng.choice(cands)
+            ops = [{'op': 'check', 'e': e},
+                   {'op': 'write_keep', 'e': e, 'path': p, 'dt': 1.0,
+                    'rules': W.gen_mapping(rng, w), 'style':
+                    w['files'][p]['style']},
+                   {'op': 'force', 'e': e}, {'op': 'check', 'e': e}] + ops
     for e in range(n):
         ops.append({'op': 'check', 'e': e})
     case = {'prop': 'C12', 'worlds': worlds, 'ops': ops, 'mode': mode}
